@@ -178,6 +178,7 @@ def main():
                 info = v.verify(c)
             except Unsupported as e:
                 errors.append(f"{c.key}: unsupported: {e}")
+                obligs.extend(v.obligs)  # obligations of the paths explored before the unsupported construct stay valid
                 continue
             except KeyError as e:
                 errors.append(f"{c.key}: {e}")
